@@ -37,7 +37,7 @@
 /*@unit
 name: tok.clean
 define: V_CLASS=0
-src: strings.c, tok.c, str.c, dlinked_list.c, obj.c
+src: tok.c, str.c, dlinked_list.c, obj.c
 tier: B
 bound: input length <= 5 (quick tier) / <= 7 (thorough tier) over {a,b,space,:,',",\}; delimiter sets NULL, ":", " :"; inputs of class clean; loops unwound 8 / 10
 unwind: 8
@@ -50,7 +50,7 @@ mem: 16
 /*@unit
 name: tok.mixed
 define: V_CLASS=1
-src: strings.c, tok.c, str.c, dlinked_list.c, obj.c
+src: tok.c, str.c, dlinked_list.c, obj.c
 tier: B
 bound: input length <= 5 (quick tier) / <= 7 (thorough tier) over {a,b,space,:,',",\}; delimiter sets NULL, ":", " :"; inputs of class mixed; loops unwound 8 / 10
 unwind: 8
@@ -63,7 +63,7 @@ mem: 16
 /*@unit
 name: tok.trailbs
 define: V_CLASS=2
-src: strings.c, tok.c, str.c, dlinked_list.c, obj.c
+src: tok.c, str.c, dlinked_list.c, obj.c
 tier: B
 bound: input length <= 5 (quick tier) / <= 7 (thorough tier) over {a,b,space,:,',",\}; delimiter sets ":", " :"; inputs of class trailbs; loops unwound 8 / 10
 unwind: 8
@@ -76,7 +76,7 @@ mem: 16
 /*@unit
 name: tok.empty
 define: V_CLASS=3
-src: strings.c, tok.c, str.c, dlinked_list.c, obj.c
+src: tok.c, str.c, dlinked_list.c, obj.c
 tier: B
 bound: input length <= 5 (quick tier) / <= 7 (thorough tier) over {a,b,space,:,',",\}; delimiter sets NULL, ":", " :"; inputs of class empty; loops unwound 8 / 10
 unwind: 8
@@ -89,7 +89,7 @@ mem: 16
 /*@unit
 name: tok.blank
 define: V_CLASS=4
-src: strings.c, tok.c, str.c, dlinked_list.c, obj.c
+src: tok.c, str.c, dlinked_list.c, obj.c
 tier: B
 bound: input length <= 5 (quick tier) / <= 7 (thorough tier) over {a,b,space,:,',",\}; delimiter sets NULL, ":", " :"; inputs of class blank; loops unwound 8 / 10
 unwind: 8
@@ -102,7 +102,7 @@ mem: 16
 /*@unit
 name: tok.multi
 define: V_CLASS=5
-src: strings.c, tok.c, str.c, dlinked_list.c, obj.c
+src: tok.c, str.c, dlinked_list.c, obj.c
 tier: B
 bound: input length <= 5 (quick tier) / <= 7 (thorough tier) over {a,b,space,:,',",\}; delimiter sets NULL, ":", " :"; inputs of class multi; loops unwound 8 / 10
 unwind: 8
@@ -115,6 +115,8 @@ mem: 16
 #define VERIF_OWN_STRLEN
 #define VERIF_OWN_STRCHR
 #define VERIF_SPLIT_PRECISE
+#define VERIF_SPLIT_OWN_MEM
+#define VS_FAT 8                  /* every buffer request of tok/str on inputs <= 7 characters fits 8 bytes */
 #include "vprelude.h"
 #include "env_split.h"
 #include "split.h"
@@ -140,9 +142,6 @@ mem: 16
 #include "../src/obj.c"
 #include "../src/str.c"
 #include "../src/dlinked_list.c"
-#include "../src/strings.c"
-#undef IS_DELIM
-#undef IS_QUOTE
 #include "../src/tok.c"
 
 static char v_d1[2] = ":";
@@ -169,7 +168,6 @@ void harness(void)
     char *in = vr_input(&n);
     char *delim;
     vr_toks_t R;
-    spif_charptr_t *l;
     spif_tok_t t;
     spif_dlinked_list_t toks;
     int f_empty = 0, f_blank = 0, f_trail;
@@ -206,8 +204,6 @@ void harness(void)
     __CPROVER_assume(flags >= 2);
 #endif
 
-    l = spiftool_split((spif_charptr_t) delim, (spif_charptr_t) in);
-
     spif_str_strclass = &s_class;     /* class pointers as the library initialises them */
     t = spif_tok_new_from_ptr((spif_charptr_t) in);
     if (delim != NULL) {
@@ -218,21 +214,12 @@ void harness(void)
 
     __CPROVER_assert(!(vg_k <= n) || in[vg_k] == w_in[vg_k], "tok " CLS ": input string unchanged");
     __CPROVER_assert((unsigned) spif_dlinked_list_count(toks) == R.cnt, "tok " CLS ": number of tokens equals the grammar's");
-    __CPROVER_assert((l == NULL) == (spif_dlinked_list_count(toks) == 0), "tok/split " CLS ": split returns NULL iff tok has no token");
     for (i = 0; i < R.cnt && i < (unsigned) spif_dlinked_list_count(toks); i++) {
         spif_str_t s = (spif_str_t) spif_dlinked_list_get(toks, (spif_listidx_t) i);
         const char *txt = (s->s != NULL) ? (const char *) s->s : "";
         vr_trim(R.t[i], want);
         __CPROVER_assert(vr_streq(txt, want), "tok " CLS ": token text equals the trimmed grammar token");
-        if (l != NULL) {
-            __CPROVER_assert(l[i] != NULL, "tok/split " CLS ": split has at least as many tokens as tok");
-            if (l[i] == NULL) return;
-            vr_trim((char *) l[i], want);
-            __CPROVER_assert(vr_streq(txt, want), "tok/split " CLS ": tok token equals the trimmed split token");
-        }
-    }
-    if (l != NULL) {
-        __CPROVER_assert(l[i] == NULL, "tok/split " CLS ": split has no more tokens than tok");
+        if (s->s != NULL) vs_check_block(s->s);
     }
     VERIF_CANARY();
 }
